@@ -28,7 +28,7 @@ CLAIMS = {
  'C08': ('it_advance = ITAdvance on every state; the ITSTATE schedule for every legal (firstcond, mask) and all 256 states '
          'by exhaustive evaluation inside Coq (bound stated); executing IT sets ITSTATE = firstcond:mask and nothing else, for every state; over whole steps (Props/C08step.v with C04step/C05step): after a completed or a skipped instruction ITSTATE has advanced exactly once (ITAdvance of what the body left) iff the instruction started inside an IT block; setflags = !InITBlock() of 16-bit encodings is proved end to end for four encodings (Props/C01step.v).',
          'Partial: the IT bits saved and cleared at exception entry and restored by exception returns are part of the C11 / C12 entry and return theorems rather than restated here; the 16-bit flag rule is composed end to end for four encodings only (it is an operand theorem for every 16-bit data-processing encoding under C07).'),
- 'C09': ('every class of the family (92 abstract opcode classes) proved bit-exact for every operand value and state against Spec/Arith.v / Spec/Arith2.v: MUL/MLA/MLS, the long multiplies (N/Z from the 64-bit result), halfword, word-by-halfword, dual and most-significant-word multiplies (Q on overflow), SDIV/UDIV, QADD/QSUB/QDADD/QDSUB and SSAT/USAT/SSAT16/USAT16 (saturation and the sticky Q flag), all 36 parallel add/subtract forms (lanes and GE flags), USAD8/USADA8, the twelve extend(-and-add) forms, PKH, REV/REV16/REVSH, RBIT (32-step loop by invariant), UBFX/SBFX/BFC, CLZ, SEL; BFI proved to do exactly what the code does and shown not to be the architectural BFI (recorded finding). MUL (ARM A1) is also proved end to end over a whole emulate_cycle for every word of the encoding (Props/C09step.v), with the general statement for any body that completes without touching the PC. The helper arithmetic they share (SignedSatQ, AddWithCarry, bit fields, sign extension) is C17.',
+ 'C09': ('every class of the family (92 abstract opcode classes) proved bit-exact for every operand value and state against Spec/Arith.v / Spec/Arith2.v: MUL/MLA/MLS, the long multiplies (N/Z from the 64-bit result), halfword, word-by-halfword, dual and most-significant-word multiplies (Q on overflow), SDIV/UDIV, QADD/QSUB/QDADD/QDSUB and SSAT/USAT/SSAT16/USAT16 (saturation and the sticky Q flag), all 36 parallel add/subtract forms (lanes and GE flags), USAD8/USADA8, the twelve extend(-and-add) forms, PKH, REV/REV16/REVSH, RBIT (32-step loop by invariant), UBFX/SBFX/BFC, CLZ, SEL; BFI proved to do exactly what the code does and shown not to be the architectural BFI (recorded finding). MUL and CLZ (ARM A1) are also proved end to end over a whole emulate_cycle for every word of the encoding (Props/C09step.v), with the general statement for any body that completes without touching the PC. The helper arithmetic they share (SignedSatQ, AddWithCarry, bit fields, sign extension) is C17.',
          'Partial: SDIV/UDIV are stated for configurations without the ARMv7-R divide-by-zero trap; the specifications in Spec/Arith2.v are hand-written from A8.8 and additionally compared three-way on lane-boundary operands; int(a / b) is modelled as truncating division (DESIGN 1.2).'),
  'C10': ('the bank table (LookUpRName = architectural banks) for every configuration/register/mode, aliasing iff same architectural register, read-after-write, histories of writes by induction, current-mode access, PC read value, SPSR banking; the 32-bit range invariant proved for the data-processing family (the 67 classes whose execute() is dp_sem): any operation, operand form, flag setting and destination incl. the PC keeps every register, the PC and the CPSR 32-bit and the mode unchanged, and with a destination other than the PC changes nothing of the CPSR but N, Z, C, V (Props/C10dp.v); the block-transfer, load/store and arithmetic theorems (C02, C03, C09) carry the same invariant through their own statements.',
          'Partial: for the remaining families the range invariant is part of each execute theorem\'s context (ictx in, 32-bit values written) rather than one statement; across whole steps of every encoding class it is searched (members of 600 encoding classes from overflow-corner states).'),
